@@ -74,7 +74,9 @@ def validatorFor (env : Env) (g : Globals) (dflt : ClassDef) (schema : Json) : R
 /-- the resolver `cls(schema)` builds for itself: `RefResolver.from_schema(schema, id_of=id_of)` -/
 def freshResolver (env : Env) (g : Globals) (c : ClassDef) (schema : Json) : Res RState :=
   let base : Str := match schema with
-    | .obj kvs => match Json.lookup c.cfg.idKey kvs with | some (.str s) => s | _ => []
+    | .obj kvs =>
+      if Json.hasKey (skey "$ref") kvs then [] else
+      match Json.lookup c.cfg.idKey kvs with | some (.str s) => s | _ => []
     | _ => []
   mkResolver env (g.metaSchemas.map fun p => (p.1, p.2.metaSchema)) base schema [] true (some 1024)
 
